@@ -3,7 +3,8 @@ import re
 
 from ..extract import AnalysisError
 from ..facts import walk, strip, callee, calls_to, local_name, access_path
-from ..symx import SymEval, Poly, Unsupported, app, var, num, single_atom, atom_fn, atom_args, subst, vkey
+from ..symx import SymEval, Poly, Unsupported, app, var, num, single_atom, atom_fn, atom_args, subst, vkey, unkey, contains_atom, replace_atom, guard_holds
+from ..idioms import carried_progress, as_closure, SPLIT_AT
 from ..trace import Tracer
 from ..panics import Audit
 
@@ -294,53 +295,16 @@ def run(ck, F, tier):
 
     PL = app("core::slice::<impl [T]>::len", var("self.pattern"))
     NT = var("self.num_trues")
-    # puncture
-    b, tr, ret = slices_of(PU + "puncture", ("self", "codeword"))
-    CL = app("index", app("ndarray::impl_methods::<impl ndarray::ArrayBase<S, D>>::shape", var("codeword")), num(0))
-    CL2 = app("ndarray::impl_methods::<impl ndarray::ArrayBase<S, D>>::len", var("codeword"))
-    srcs = [e for e in tr.events if e.callee.endswith("::slice")]
-    dsts = [e for e in tr.events if e.callee.endswith("::slice_mut")]
-    outs = [e for e in tr.events if e.callee.endswith("::uninit")]
-    ok = False
-    why = "puncture: expected one slice / slice_mut / uninit"
-    if len(srcs) == 1 and len(dsts) == 1 and len(outs) == 1:
-        lp = srcs[0].loops
-        # loops: enumerate(filter_map(enumerate(pattern.iter())))
-        names = lp[0][1] if lp and lp[0][0] == "enumerate" else None
-        sr = range_of(tr, srcs[0].node, srcs[0].env)
-        dr = range_of(tr, dsts[0].node, dsts[0].env)
-        for cl in (CL, CL2):
-            BS = app("idiv", cl, PL)
-            j = var(lp[0][1]) if lp and lp[0][0] == "enumerate" else None
-            if j is None or sr is None or dr is None:
-                continue
-            # k = the filter_map payload
-            kk = None
-            for cand in srcs[0].env.values() if srcs[0].env else []:
-                pass
-            # the element of the enumerated sequence (the kept pattern position k), not the running index j
-            kpoly = None
-            if len(lp[0]) > 3:
-                kv = tr.elem_value(lp[0][2], lp[0][3])
-                if isinstance(kv, Poly) and sr == (kv * BS, (kv + num(1)) * BS) and kv != j:
-                    kpoly = kv
-            dst_ok = dr == (j * BS, (j + num(1)) * BS)
-            size_ok = outs[0].args[0] == BS * NT
-            src_is_cw = srcs[0].args[0] == var("codeword")
-            if kpoly is not None and dst_ok and size_ok and src_is_cw:
-                ok = True
-                why = "out[j*B..(j+1)*B] <- codeword[k*B..(k+1)*B], B = len/pattern_len, output length B*num_trues, k = %r" % (kpoly,)
-                kept = kpoly
-        if not ok:
-            why = "puncture slices %r -> %r, out size %r" % (sr, dr, outs[0].args[0])
-    ck.inst("I2", "puncture:block-map", ok, srcs[0].site if srcs else b.span, why)
-    # the (j,k) enumeration: the enumerated sequence yields exactly the positions k with pattern[k] true, in increasing order
-    # (filter_map(|(k,&b)| if b {Some(k)} else {None}) or filter(|(_,&b)| b).map(|(k,_)| k) over pattern.iter().enumerate())
-    def kept_enum_ok(tr_, ev_list):
-        if not ev_list or not ev_list[0].loops or ev_list[0].loops[0][0] != "enumerate":
-            return False, "the block copy is not inside a loop over an enumerated sequence"
-        d = ev_list[0].loops[0][2]
-        base = ("enumerate", ("elems", var("self.pattern")))
+    # The copy loops are read into one normal form: in the iteration that handles kept pattern position K, RANK = number of kept
+    # positions before K.  RANK is either the index of an enumerate() over the kept positions, or a loop-carried counter / slice cursor
+    # advanced once in exactly the iterations that copy (idioms.carried_progress).
+    RANK = var("<rank>")
+    PAT = var("self.pattern")
+
+    def kept_sequence(tr_, d):
+        """does the iterator description yield exactly the positions k with pattern[k] true, in increasing order?
+        (filter_map(|(k,&b)| if b {Some(k)} else {None}) / b.then_some(k) or filter(|(_,&b)| b).map(|(k,_)| k) over pattern.iter().enumerate())"""
+        base = ("enumerate", ("elems", PAT))
         K = var("k")
         try:
             if d[0] == "filter_map" and d[1] == base:
@@ -356,8 +320,109 @@ def run(ck, F, tier):
                 return False, "enumerated sequence is %r" % (d[:2],)
         except Unsupported as e:
             return False, "selection closure unreadable: %s" % e
-        return sel, "kept positions: the sequence keeps index k exactly when pattern[k] is true (%s); the outer enumerate numbers them j = 0,1,.." % sel
-    okp, whyp = kept_enum_ok(tr, srcs)
+        return sel, "kept positions: the sequence keeps index k exactly when pattern[k] is true (%s)" % sel
+
+    def kept_loop(tr_, e, outer):
+        """the loop around a block copy -> (K, rank variable or None, ok, why)"""
+        if not e.loops or len(e.loops) != 1:
+            return None, None, False, "the block copy is not inside exactly one loop"
+        l = e.loops[0]
+        local = [g for g in e.guards if g not in outer]
+        if l[0] == "enumerate" and l[2] == ("elems", PAT) and len(l) > 3:
+            el = tr_.elem_value(l[2], l[3])
+            if len(local) == 1 and isinstance(el, Poly) and guard_holds(local, el):
+                return var(l[1]), None, True, "loop over all pattern positions k, the copy runs exactly when pattern[k] is true"
+            return None, None, False, "loop over all pattern positions, but the copy is guarded by %r" % (local,)
+        if l[0] == "enumerate" and len(l) > 3:
+            ok, why = kept_sequence(tr_, l[2])
+            return tr_.elem_value(l[2], l[3]), var(l[1]), ok and not local, why + "; the outer enumerate numbers them j = 0,1,.."
+        if l[0] == "iter" and isinstance(l[1], str):
+            ok, why = kept_sequence(tr_, l[2])
+            return tr_.elem_value(l[2], l[1]), None, ok and not local, why
+        return None, None, False, "loop form %r" % (l[:2],)
+
+    def carried_of(tr_, nm, e):
+        cp = carried_progress(tr_, nm)
+        if cp is None or list(cp["loops"]) != list(e.loops) or list(cp["guards"]) != list(e.guards):
+            return None     # not advanced once in exactly the copying iterations
+        return cp
+
+    def resolve(tr_, v, e, rank):
+        """express enumerate indices and loop-carried counters through RANK; None when a carried value has no such reading"""
+        if rank is not None:
+            v = replace_atom(v, single_atom(rank), RANK)
+        names = set()
+        contains_atom(v, lambda a: bool(a[0] == "v" and a[1].endswith("@loop") and names.add(a[1][:-5])))
+        for nm in sorted(names):
+            cp = carried_of(tr_, nm, e)
+            if cp is None or cp["kind"] != "counter" or not isinstance(cp["init"], Poly):
+                return None
+            v = replace_atom(v, single_atom(var(nm + "@loop")), cp["init"] + cp["step"] * RANK)
+        return v
+
+    def rng(x):
+        x = unkey(x) if not isinstance(x, Poly) else x
+        if isinstance(x, tuple) and x and x[0] == "struct" and x[1] == "Range":
+            d = dict(x[2]) if not isinstance(x[2], dict) else x[2]
+            g = lambda k: d[k][1] if isinstance(d[k], tuple) and d[k][0] == "P" else d[k]
+            return g("start"), g("end")
+        return None
+
+    def block_of(tr_, v, e, rank):
+        """a slice value base[s..e] -> (base, s, e) with offsets in terms of RANK; slice cursors (x = x.split_at(B).1) are followed"""
+        a = single_atom(v) if isinstance(v, Poly) else None
+        if a is None:
+            return None
+        if atom_fn(a) == "index":
+            base, r = atom_args(a)[0], rng(a[3])
+        elif atom_fn(a) == "proj0" and single_atom(atom_args(a)[0]) is not None and atom_fn(single_atom(atom_args(a)[0])) == SPLIT_AT:
+            base, n = atom_args(single_atom(atom_args(a)[0]))
+            r = (num(0), n)
+        else:
+            return None
+        if r is None or not isinstance(base, Poly):
+            return None
+        s_, e_ = resolve(tr_, r[0], e, rank), resolve(tr_, r[1], e, rank)
+        if s_ is None or e_ is None:
+            return None
+        ba = single_atom(base)
+        if ba is not None and ba[0] == "v" and ba[1].endswith("@loop"):
+            cp = carried_of(tr_, ba[1][:-5], e)
+            if cp is None or cp["kind"] != "cursor":
+                return None
+            off = cp["step"] * RANK
+            return cp["init"], off + s_, off + e_, "cursor"
+        return base, s_, e_, "index"
+
+    # puncture
+    b, tr, ret = slices_of(PU + "puncture", ("self", "codeword"))
+    CL = app("index", app("ndarray::impl_methods::<impl ndarray::ArrayBase<S, D>>::shape", var("codeword")), num(0))
+    CL2 = app("ndarray::impl_methods::<impl ndarray::ArrayBase<S, D>>::len", var("codeword"))
+    srcs = [e for e in tr.events if e.callee.endswith("::slice")]
+    dsts = [e for e in tr.events if e.callee.endswith("::slice_mut")]
+    outs = [e for e in tr.events if e.callee.endswith("::uninit")]
+    ok = okp = False
+    why = "puncture: expected one slice / slice_mut / uninit"
+    whyp = "the block copy was not found"
+    if len(srcs) == 1 and len(dsts) == 1 and len(outs) == 1:
+        K, rank, okp, whyp = kept_loop(tr, srcs[0], outs[0].guards)
+        sr = range_of(tr, srcs[0].node, srcs[0].env)
+        dr = range_of(tr, dsts[0].node, dsts[0].env)
+        if K is not None and sr is not None and dr is not None and list(dsts[0].loops) == list(srcs[0].loops) and list(dsts[0].guards) == list(srcs[0].guards):
+            sr = tuple(resolve(tr, x, srcs[0], rank) for x in sr)
+            dr = tuple(resolve(tr, x, dsts[0], rank) for x in dr)
+            for cl in (CL, CL2):
+                BS = app("idiv", cl, PL)
+                src_ok = isinstance(K, Poly) and sr == (K * BS, (K + num(1)) * BS) and not contains_atom(K, lambda a: a == single_atom(RANK))
+                dst_ok = dr == (RANK * BS, (RANK + num(1)) * BS)
+                size_ok = outs[0].args[0] == BS * NT
+                src_is_cw = srcs[0].args[0] == var("codeword")
+                if src_ok and dst_ok and size_ok and src_is_cw:
+                    ok = True
+                    why = "out[r*B..(r+1)*B] <- codeword[k*B..(k+1)*B], r = number of kept positions before k, B = len/pattern_len, output length B*num_trues, k = %r" % (K,)
+        if not ok:
+            why = "puncture slices %r -> %r, out size %r" % (sr, dr, outs[0].args[0])
+    ck.inst("I2", "puncture:block-map", ok, srcs[0].site if srcs else b.span, why)
     ck.inst("I2", "puncture:kept-enumeration", okp, F.body(PU + "puncture").span, whyp)
     # depuncture
     b, tr, ret = slices_of(PU + "depuncture", ("self", "llrs"))
@@ -365,35 +430,27 @@ def run(ck, F, tier):
     BSd = app("idiv", LL, NT)
     cps = [e for e in tr.events if e.callee.endswith("copy_from_slice")]
     allocs = [e for e in tr.events if e.callee.endswith("from_elem")]
-    ok = False
+    ok = okd = False
     why = "depuncture: expected one copy_from_slice and one vec! allocation"
+    whyd = "the block copy was not found"
+    depuncture_cursor = False
     if len(cps) == 1 and len(allocs) == 1:
         e = cps[0]
-        dst, src = e.args
-        da, sa = single_atom(dst), single_atom(src)
+        K, rank, okd, whyd = kept_loop(tr, e, allocs[0].guards)
         dflt = allocs[0].args[0] == app("std::default::Default::default")
         size_ok = allocs[0].args[1] == PL * BSd
-        if da and sa and atom_fn(da) == "index" and atom_fn(sa) == "index":
-            dbase, dr = atom_args(da)
-            sbase, sr = atom_args(sa)
-            j = var(e.loops[0][1]) if e.loops and e.loops[0][0] == "enumerate" else None
-            def rng(x):
-                if isinstance(x, tuple) and x and x[0] == "struct" and x[1] == "Range":
-                    d = dict(x[2]) if not isinstance(x[2], dict) else x[2]
-                    g = lambda k: d[k][1] if isinstance(d[k], tuple) and d[k][0] == "P" else d[k]
-                    return g("start"), g("end")
-                return None
-            drr, srr = rng(dr), rng(sr)
-            src_ok = sbase == var("llrs") and j is not None and srr == (j * BSd, (j + num(1)) * BSd)
-            kpoly = None
-            if drr and e.loops and len(e.loops[0]) > 3:
-                kv = tr.elem_value(e.loops[0][2], e.loops[0][3])
-                if isinstance(kv, Poly) and drr == (kv * BSd, (kv + num(1)) * BSd) and kv != j:
-                    kpoly = kv      # the kept pattern position, not the running index
-            ok = src_ok and kpoly is not None and dflt and size_ok
-            why = "output = vec![default; pattern_len*B], output[k*B..(k+1)*B] <- llrs[j*B..(j+1)*B], B = len/num_trues [src %s, dst block %r, default fill %s, size %s]" % (src_ok, kpoly, dflt, size_ok)
+        db = block_of(tr, e.args[0], e, rank) if K is not None else None
+        sb = block_of(tr, e.args[1], e, rank) if K is not None else None
+        if db is not None and sb is not None and isinstance(K, Poly):
+            src_ok = sb[0] == var("llrs") and (sb[1], sb[2]) == (RANK * BSd, (RANK + num(1)) * BSd)
+            dst_ok = (db[1], db[2]) == (K * BSd, (K + num(1)) * BSd) and not contains_atom(K, lambda a: a == single_atom(RANK)) and \
+                single_atom(db[0]) is not None and atom_fn(single_atom(db[0])) == "std::vec::from_elem"
+            ok = src_ok and dst_ok and dflt and size_ok
+            depuncture_cursor = ok and sb[3] == "cursor"
+            why = "output = vec![default; pattern_len*B], output[k*B..(k+1)*B] <- llrs[r*B..(r+1)*B], r = number of kept positions before k, B = len/num_trues [src %s, dst block %s (k = %r), default fill %s, size %s]" % (src_ok, dst_ok, K, dflt, size_ok)
+        elif K is not None:
+            why = "depuncture: copy operands %r <- %r are not readable as blocks" % (e.args[0], e.args[1])
     ck.inst("I2", "depuncture:block-map", ok, cps[0].site if cps else b.span, why)
-    okd, whyd = kept_enum_ok(tr, cps)
     ck.inst("I2", "depuncture:kept-enumeration", okd, F.body(PU + "depuncture").span, whyd)
     # writes to output only through the copy: no other mutation of `output`
     # rate and num_trues
@@ -413,14 +470,21 @@ def run(ck, F, tier):
     if isinstance(nv, tuple) and nv[0] == "struct":
         nt = nv[2].get("num_trues")
         a = single_atom(nt) if isinstance(nt, Poly) else None
-        if a and atom_fn(a) == "std::iter::Iterator::count":
-            d = a[2]
-            # count(filter(elems(pattern), closure b -> b))
-            cl = [c for c in walk(nb.value) if c.get("k") == "closure"]
-            if len(cl) == 1 and "filter" in repr(d) and "pattern" in repr(d):
-                v = SymEval(F).apply(("closure", cl[0], {}), [var("b")])
-                okn = v == var("b")
-    ck.inst("I2", "num_trues", okn, nb.span, "num_trues = number of `true` entries of the pattern (count of filter(|&&b| b))")
+        if a and atom_fn(a) in ("std::iter::Iterator::count", "std::iter::Iterator::sum"):
+            d = unkey(a[2])
+            d = d[1] if isinstance(d, tuple) and d and d[0] == "iterdesc" else d
+            # count(filter(elems(pattern), f)) with f(true), !f(false)   or   sum(map(elems(pattern), g)) with g(true) = 1, g(false) = 0
+            want = {"std::iter::Iterator::count": ("filter", ("bool", True), ("bool", False)),
+                    "std::iter::Iterator::sum": ("map", num(1), num(0))}[atom_fn(a)]
+            if isinstance(d, tuple) and len(d) == 3 and d[0] == want[0] and d[1] in (("elems", var("pattern")), ("elems", ("P", var("pattern")))):
+                try:
+                    f = as_closure(F, tr, d[2])
+                    # usize::from(bool) / `b as usize`: true = 1, false = 0
+                    coerce = (lambda v: num(int(v[1])) if isinstance(v, tuple) and v[0] == "bool" else v) if d[0] == "map" else (lambda v: v)
+                    okn = coerce(tr.apply(f, [("bool", True)])) == want[1] and coerce(tr.apply(f, [("bool", False)])) == want[2]
+                except Unsupported:
+                    okn = False
+    ck.inst("I2", "num_trues", okn, nb.span, "num_trues = number of `true` entries of the pattern (count of the entries that are true, or sum of their 0/1 values)")
 
     # ---- I3 ---------------------------------------------------------------------------------
     rev_p = {"call:slice": (1, "source block k*B..(k+1)*B lies inside the codeword: k < pattern_len and B*pattern_len = len (divisibility guard)"),
@@ -435,6 +499,10 @@ def run(ck, F, tier):
              "index:std::vec::Vec": (1, "output[k*B..(k+1)*B] with k < pattern_len and output length pattern_len*B"),
              "arith:Rem:usize": (1, "num_trues >= 1: the property's domain is patterns with at least one kept block"),
              "arith:Div:usize": (1, "num_trues >= 1 (as above)")}
+    if depuncture_cursor:
+        # I2 read the source as the slice cursor llrs[r*B..]: taking B more elements is the same bound as llrs[r*B..(r+1)*B]
+        rev_d["call:split_at"] = (1, "the cursor holds llrs[r*B..] (I2 depuncture:block-map), r < num_trues and B*num_trues = len (divisibility guard)")
+        rev_d.pop("index:[T]")
     a2 = Audit(ck, F, "I3", PU + "depuncture", ["self", "llrs"], reviewed=rev_d).run()
     for fn, aud, divisor, lenv in ((PU + "puncture", a, PL, None), (PU + "depuncture", a2, NT, LL)):
         rets = [e for e in aud.tracer.events if e.callee == "<return>"]
